@@ -309,6 +309,16 @@ pub fn parse_currency_non_commodity(input: &str) -> Result<String, ParseError> {
 
 /// Parse amount with optional decimal places
 pub fn parse_amount(input: &str) -> Result<f64, ParseError> {
+    // SWIFT `d` format: digits with at most one decimal separator. Rejects the other
+    // spellings f64::from_str would take (NaN, inf, exponents, signs).
+    let separators = input.chars().filter(|c| *c == ',' || *c == '.').count();
+    let digits = input.chars().filter(|c| c.is_ascii_digit()).count();
+    if digits == 0 || separators > 1 || digits + separators != input.chars().count() {
+        return Err(ParseError::InvalidFormat {
+            message: format!("Invalid amount format: '{}'", input),
+        });
+    }
+
     // Remove any commas (European decimal separator handling)
     let normalized = input.replace(',', ".");
 
